@@ -282,19 +282,23 @@ func runC18(c *hx.Ctx) {
 	conc := 0
 	for _, g := range []int{2, 3, 4, 8, 16} {
 		for _, start := range []int{1, 0, 65000, 65535} {
-			per := 4000 / g
+			per := 60000 / g
 			ctr := session.NewIDCounterWithNext(packet.ID(start))
 			res := make([][]packet.ID, g)
 			var wg sync.WaitGroup
+			begin := make(chan struct{})
 			for k := 0; k < g; k++ {
 				wg.Add(1)
+				res[k] = make([]packet.ID, 0, per)
 				go func(k int) {
 					defer wg.Done()
+					<-begin // all callers are released together
 					for i := 0; i < per; i++ {
 						res[k] = append(res[k], ctr.NextID())
 					}
 				}(k)
 			}
+			close(begin)
 			wg.Wait()
 			var all []int
 			for _, r := range res {
